@@ -172,6 +172,13 @@ def gen_prog(rng, cls):
         # a storage that answers AwaitingConfiguration to stop(): the next start without a configure must be refused by the HAL
         faults = ["stostopawait 2"]
         prog = [cfg0, "configure", "start", "stop", "start"] + rng.choice([["stop"], ["abort"], []]) + [cfg0, "configure", "start", "stop"]
+    elif cls == "avgf32":
+        # averaging asked for a camera with float samples: the filter thread gives up at its first frame; stop and abort must still
+        # return (the source may already sleep on the filter's full queue), and the next acquisition is a normal one
+        fb4 = R.frame_bytes(w, h, 4)
+        ring = rng.choice([fb4 * 2 + 16, fb4 * 3 + 8, fb4 * 6])
+        prog = ["cfg 0 cam=0 sto=2 w=%d h=%d type=4 n=%d avg=%d" % (w, h, rng.choice([5, 1000]), rng.choice([2, 3])), "configure", "start",
+                "sleep %d" % rng.randrange(0, 12), rng.choice(["abort", "stop"]), cfg0, "configure", "start", "stop"]
     elif cls == "avgfault":
         # averaging on and the storage fails: the filter's flush must end although its output is refused
         k = rng.choice([2, 3]); fb32 = R.frame_bytes(w, h, 4)
